@@ -766,6 +766,7 @@ func main() {
 	genTimeCounter(repo, out)
 	genDecide(repo, out)
 	genHandlers(repo, out, events)
+	genCaches(repo, out)
 
 	hdr := "(* GENERATED by dt2coq from /repo on every run. Do not edit. *)\nFrom Coq Require Import List NArith String.\nImport ListNotations.\nLocal Open Scope N_scope.\n\n"
 
